@@ -2,6 +2,8 @@
 
 // Contracts for the verification machinery in /verif (comment-only; no code).
 // udpswarm: a Receive whose context is cancelled must return; a blocking socket read cannot.
+// The payload handed to the callback lives in a buffer of this very call (concurrent Receive calls
+// cannot overwrite each other's message).
 
 package udpswarm
 
@@ -9,5 +11,7 @@ package udpswarm
 //@   noframe
 //@   requires s != nil && s.conn != nil
 //@   wakes done(ctx)
+//@   before call th:
+//@     assert [ownbuffer] fresh(arg0.Payload)
 //@   fnspec th:
 //@     pure
